@@ -64,6 +64,8 @@ fn reject_kind(m: &str) -> String {
         "sanity-check-plan".into()
     } else if m.contains("duplicate unqualified field name") {
         "duplicate-field-name".into()
+    } else if m.contains("aggregate_statistics") {
+        "aggregate-statistics-assertion".into()
     } else {
         let t: String = m.chars().filter(|c| c.is_ascii_alphabetic() || *c == ' ').take(60).collect();
         format!("other:{}", t.trim().replace(' ', "-"))
@@ -82,10 +84,16 @@ fn notin_not_conjunct(q: &Query) -> bool {
     }
     /// `<constant> NOT IN (sub-query)`: the comparison is pushed into the sub-query as a filter,
     /// which removes its NULL rows before the (then key-less) anti join
+    /// constant, or simplified to a constant (`COALESCE(<non-NULL literal>, …)`)
+    /// a needle that is (or may be simplified to) a constant: anything but a bare column
+    /// (`x + NULL`, `CASE WHEN false THEN x END`, `COALESCE('a', x)` … are folded to constants)
+    fn is_const(x: &Expr) -> bool {
+        !matches!(x, Expr::Col(_))
+    }
     fn const_needle(e: &Expr) -> bool {
         match e {
-            Expr::Sub { kind: SubKind::In, neg: true, x: Some(x), .. } => !x.has_col(),
-            Expr::Not(a) => matches!(&**a, Expr::Sub { kind: SubKind::In, neg: false, x: Some(x), .. } if !x.has_col()),
+            Expr::Sub { kind: SubKind::In, neg: true, x: Some(x), .. } => is_const(x),
+            Expr::Not(a) => matches!(&**a, Expr::Sub { kind: SubKind::In, neg: false, x: Some(x), .. } if is_const(x)),
             _ => false,
         }
     }
@@ -127,8 +135,16 @@ fn notin_not_conjunct(q: &Query) -> bool {
 /// is narrowing and yields NULL (known finding, shared with C04)
 fn trycast_literal_cmp(q: &Query) -> bool {
     let mut hit = false;
-    let is_tc = |e: &Expr| matches!(e, Expr::Cast { try_: true, ty: Ty::Int(_), .. });
-    let is_lit = |e: &Expr| matches!(e, Expr::Lit(..));
+    // a TRY_CAST to an integer type, possibly under further (implicit or explicit) casts
+    fn is_tc(e: &Expr) -> bool {
+        match e {
+            Expr::Cast { try_: true, ty: Ty::Int(_), .. } => true,
+            Expr::Cast { e, .. } => is_tc(e),
+            _ => false,
+        }
+    }
+    // a constant expression (folded to a literal before unwrap_cast runs)
+    let is_lit = |e: &Expr| !e.has_col();
     let _ = q.map_exprs(&mut |e: Expr| {
         match &e {
             Expr::Bin(op, a, b) if Op::CMP.contains(op) || matches!(op, Op::Distinct | Op::NotDistinct) => {
@@ -137,7 +153,29 @@ fn trycast_literal_cmp(q: &Query) -> bool {
                 }
             }
             Expr::In(_, a, l) if is_tc(a) && l.iter().all(|x| is_lit(x)) => hit = true,
-            Expr::Between(_, a, lo, hi) if is_tc(a) && is_lit(lo) && is_lit(hi) => hit = true,
+            Expr::Between(_, a, lo, hi) if is_tc(a) && (is_lit(lo) || is_lit(hi)) => hit = true,
+            _ => {}
+        }
+        e
+    });
+    hit
+}
+
+/// `x NOT IN (…, NULL, …)` with a NULL literal in the list (never TRUE): the engine simplifies it
+/// to a conjunction of `<>` that drops the NULL (known finding)
+fn notin_list_with_null(q: &Query) -> bool {
+    let mut hit = false;
+    let has_null = |l: &Vec<Expr>| l.iter().any(|x| matches!(x, Expr::Lit(Val::Null, _, _)));
+    let _ = q.map_exprs(&mut |e: Expr| {
+        match &e {
+            Expr::In(true, _, l) if has_null(l) => hit = true,
+            Expr::Not(a) => {
+                if let Expr::In(false, _, l) = &**a {
+                    if has_null(l) {
+                        hit = true;
+                    }
+                }
+            }
             _ => {}
         }
         e
@@ -212,6 +250,10 @@ pub fn run(run: &mut Run, args: &Args) {
         let trycast_cmp = trycast_literal_cmp(&q);
         if trycast_cmp {
             run.count("shape:try-cast-compared-with-literal");
+        }
+        let notin_null = notin_list_with_null(&q);
+        if notin_null {
+            run.count("shape:not-in-list-with-null-literal");
         }
         let derived_cnt = derived_global_count(&q);
         if derived_cnt {
@@ -317,6 +359,8 @@ pub fn run(run: &mut Run, args: &Args) {
                 "query-notin-unaware-shape"
             } else if trycast_cmp {
                 "query-trycast-literal-cmp"
+            } else if notin_null {
+                "query-notin-list-with-null"
             } else if derived_cnt {
                 "query-derived-global-count"
             } else {
